@@ -11,7 +11,7 @@
    No proofs here.  [Fuel] results stand for a Python recursion that never ends, [Crash k] for a raised exception. *)
 From Coq Require Import List ZArith Bool.
 Import ListNotations.
-From Verif Require Import Val CounterSyntax ClassCounters.
+From Verif Require Import Val CounterSyntax FormatParse ClassCounters.
 Local Open Scope Z_scope.
 
 Inductive res (A : Type) := Ok (a : A) | Crash (k : Z) | Fuel.
@@ -267,7 +267,8 @@ Definition newcounter (nm : name) (resetby : option name) (f : fmt) (trim : bool
   if existsb (fun p => name_eqb nm (fst p)) (m_counters ms) then ms
   else mkms (m_counters ms ++ [(nm, mkc resetby 0)]) ((nm, (f, trim)) :: m_thes ms) (m_envs ms) (m_ldepth ms).
 
-Definition default_fmt (nm : name) : fmt := [PRef nm None].    (* '${%s}' % name *)
+(* format = '${%s}' % name, parsed as TheCounter.invoke parses it *)
+Definition default_fmt (nm : name) : fmt := parse_format (default_format_string nm).
 
 Fixpoint set_format (nm : name) (f : fmt) (th : thes) : thes :=
   match th with
@@ -379,7 +380,7 @@ Definition run_event (cls depth : Z) (e : event) (ms : mstate) : res (mstate * l
         | None, false =>
             (Some nm,
              match truthy within with
-             | Some w => newcounter nm (Some w) [PRef (the_str ++ w) None; PLit [46]; PRef nm None] false ms
+             | Some w => newcounter nm (Some w) (parse_format (theorem_format_string w nm)) false ms    (* format='${the%s}.${%s}' % (within, name) *)
              | None => newcounter nm None (default_fmt nm) false ms
              end)
         | c, _ => (c, ms)
